@@ -26,6 +26,7 @@ type Obligation struct {
 	Goal   Term // must hold under Hyp
 	Script *Script
 	Inline bool  // generated inside an inlined callee
+	Agree  int   // thorough tier: number of solvers that answered unsat
 	Ante   *Term // antecedent of an implication-shaped goal (for the vacuity cover)
 	// results
 	Status string // unsat (discharged) | sat | unknown | timeout
